@@ -572,3 +572,55 @@ def job_inplace_history(job):
             out['samples'].append({'config': cfg, 'a_keys': list(ak), 'b_keys': list(bk)})
     out['distinct'] = len(pats)
     return out
+
+
+# ------------------------------------------------------------------ C03 / C02: a plain number as the other operand of the named product methods
+def job_number_methods(job):
+    """x.op(c), x.lc(c), .. and alg.lc(c, x), .. with a plain int / float / Fraction c: the number is the scalar multivector c, so the result
+    is the product of x with that scalar as the product's grade rule defines it (x.lc(c) keeps only the scalar part of x, c.lc(x) is c*x)."""
+    from standins import oracle as O
+    from standins.native import make_algebra, mv_from, frac_vals, showmv, ref_binary, rand_keys
+    rng = random.Random(job.get('seed', 0))
+    out = {'evaluations': 0, 'failures': [], 'samples': [], 'configs': 0}
+    pats = set()
+    percat = {}
+    for cfg in job['configs']:
+        alg = make_algebra(cfg)
+        fr = O.Frame(alg)
+        out['configs'] += 1
+        N = 2 ** alg.d
+        for it in range(cfg.get('random', 4)):
+            ks = tuple(range(N)) if it == 0 else tuple(rand_keys(rng, alg, rng.choice(['sparse', 'perm', 'grade'])) or (1,))
+            vs = frac_vals(rng, ks)
+            A = O.nz(fr.to_ref(ks, vs))
+            for c in (rng.randint(2, 5), -1, 0.5, F(rng.randint(1, 5), 3)):
+                C = {0: c}
+                for name in job['ops']:
+                    for form in ('x.method(c)', 'alg.op(x, c)', 'alg.op(c, x)'):
+                        out['evaluations'] += 1
+                        pats.add((json.dumps(cfg, sort_keys=True), name, ks, form))
+                        x = mv_from(alg, ks, list(vs))
+                        try:
+                            if form == 'x.method(c)':
+                                r = getattr(x, name)(c)
+                                exp = ref_binary(fr, name, A, C)
+                            elif form == 'alg.op(x, c)':
+                                r = getattr(alg, name)(x, c)
+                                exp = ref_binary(fr, name, A, C)
+                            else:
+                                r = getattr(alg, name)(c, x)
+                                exp = ref_binary(fr, name, C, A)
+                            got = O.nz(fr.mv_to_ref(r))
+                            ok, err = O.eq(got, O.nz(exp)), None
+                        except Exception as e:
+                            ok, err, got, exp = False, type(e).__name__ + ': ' + str(e)[:100], None, None
+                        if not ok:
+                            percat[(name, form)] = percat.get((name, form), 0) + 1
+                            if percat[(name, form)] <= 2:
+                                out['failures'].append({'config': cfg, 'op': name, 'form': form, 'x': showmv(ks, vs), 'number': repr(c),
+                                                        'what': 'product with a plain number differs from the product with the scalar multivector of that value',
+                                                        'got': str(got)[:200], 'expected': str(exp)[:200], 'error': err})
+        if len(out['samples']) < 3:
+            out['samples'].append({'config': cfg, 'x_keys': list(ks)})
+    out['distinct'] = len(pats)
+    return out
